@@ -16,7 +16,7 @@ import dlib  # noqa: E402
 
 logging.disable(logging.CRITICAL)
 
-from traits.api import Any, Dict, HasTraits, Instance, Int, List, Set, Str  # noqa: E402
+from traits.api import Any, Dict, HasTraits, Instance, Int, List, Set, Str, observe  # noqa: E402
 from traits.has_traits import _compile_expression  # noqa: E402
 from traits.observation import observe as observe_api  # noqa: E402
 from traits.observation import _has_traits_helpers as hth  # noqa: E402
@@ -51,6 +51,12 @@ class N(HasTraits):
     m = Dict(Str, Instance(HasTraits))
     s = Set(Instance(HasTraits))
     w = Any()
+
+    # the decorator path: registered when the object is created, handler = bound method of the object itself
+    # (appears as a foreign element in the snapshots; must not keep the object alive either)
+    @observe("value2")
+    def _decorated(self, event):
+        pass
 
 
 class P(HasTraits):
@@ -237,6 +243,7 @@ def run_case(case):
             if k in ("Reg", "Unreg"):
                 _, root, hid, dsp, gtrees, text = op
                 if text is not None:
+                    # a string, or a list of strings (HasTraits.observe accepts both)
                     graphs = [graph_json(g) for g in _compile_expression(text)]
                     pool[root].observe(handlers[hid], text, remove=(k == "Unreg"), dispatch={0: "same", 2: "ui"}[dsp])
                 else:
